@@ -86,15 +86,201 @@ class C02(HistoryProfile):
     if k == "restart":
       if not out.ok:
         raise vio(sim, "restart-from-replica", "loading the replica failed: %s" % out.error)
-      if out.stored:
-        raise vio(sim, "restart-from-replica",
-                  "Calculate after restart from replica emitted %r" % (out.stored[:3],))
+      # (That Calculate emits nothing at all is C07's claim; here the durable copy must reproduce
+      # the same observable state, and whatever Calculate emits goes through the replica check.)
       d = eq.diff(out.extra["old_sigma"], out.post)
       if d:
         raise vio(sim, "restart-from-replica", "state differs after restart: " + "; ".join(d[:4]))
       sim.count("probe.restart_from_replica")
+    if out.ok is False:
+      sim.count("probe.replica_checked_after_rejection")
     check_replica(sim, out)
     self.note_nontrivial(sim, out, "replica")
 
 
-PROFILES = [C02()]
+# -- C07 ------------------------------------------------------------------------------------------
+
+class C07(HistoryProfile):
+  prop = "C07"
+  name = "c07"
+  technique = ("deterministic simulation: crash/restart of the sandbox at seeded points, reload "
+               "through the real load_meta_tables/load_table/_decode_db_value path")
+  p_restart = 0.18
+  p_undo = 0.04
+  p_redo_after_undo = 0.5
+
+  def config(self, rng, tier):
+    cfg = super(C07, self).config(rng, tier)
+    cfg["p_restart"] = self.p_restart * rng.choice([0.5, 1, 2])
+    return cfg
+
+  def check(self, sim, out, st):
+    if out.ev["k"] != "restart":
+      return
+    if not out.ok:
+      raise vio(sim, "reopen-failed", "reopening the reported document failed: %s" % out.error)
+    if out.stored:
+      raise vio(sim, "reopen-calculate-emits",
+                "Calculate after reopen emitted %d stored action(s): %r" % (
+                  len(out.stored), out.stored[:3]))
+    d = eq.diff(out.extra["old_sigma"], out.post)
+    if d:
+      raise vio(sim, "reopen-state", "reopened engine reports different data: " + "; ".join(d[:4]))
+    sim.count("oracle.reopen")
+    sim.count("oracle.nontrivial")
+    sim.shapes.add("%s/restart" % self.shape(sim))
+
+  def finish(self, sim, st):
+    self.step(sim, {"k": "restart", "mode": "reported"}, st)
+
+
+# -- C05 ------------------------------------------------------------------------------------------
+
+def check_from_scratch(sim, prop="C05"):
+  snap, err = sim.from_scratch()
+  if err is not None:
+    raise vio(sim, "from-scratch-load", "fresh engine failed to load/calculate: %s" % err, prop)
+  d = eq.diff(sim.sigma, snap)
+  if d:
+    raise vio(sim, "from-scratch", "; ".join(d[:4]) + "  (A=incremental, B=from scratch)", prop)
+
+
+class C05(HistoryProfile):
+  prop = "C05"
+  name = "c05"
+  technique = ("deterministic simulation: seeded edit histories; at seeded points a side engine is "
+               "restarted from metadata + data columns only and recalculates from scratch")
+  p_undo = 0.05
+  p_redo_after_undo = 0.3
+  max_events = 36
+
+  def base_weights(self):
+    w = dict(gen.DEFAULT_WEIGHTS)
+    w.update({"add_formula_column": 14, "modify_formula": 5, "update_records": 18,
+              "add_summary": 4, "add_summary_formula": 2, "modify_type": 4, "rename_column": 3})
+    return w
+
+  def config(self, rng, tier):
+    cfg = super(C05, self).config(rng, tier)
+    cfg["check_every"] = rng.choice([1, 2, 3, 5])
+    return cfg
+
+  def check(self, sim, out, st):
+    st["n"] = st.get("n", 0) + 1
+    if out.ok and out.ev["k"] in ("bundle", "undo", "redo") and st["n"] % sim_cfg(st, "check_every", 1) == 0:
+      check_from_scratch(sim)
+      self.note_nontrivial(sim, out, "from_scratch")
+
+  def init_state(self, sim, cfg):
+    return {"cfg": cfg}
+
+  def finish(self, sim, st):
+    check_from_scratch(sim)
+
+
+def sim_cfg(st, key, default):
+  return (st.get("cfg") or {}).get(key, default)
+
+
+# -- C01 / C03 ------------------------------------------------------------------------------------
+
+def _data_only_equal(sim, a, b):
+  """True when snapshots a and b agree on everything except formula-column values."""
+  dv = DocView(b)
+  ign = {}
+  for t in dv.tables.values():
+    ign[t.tableId] = [c.colId for c in t.cols.values() if c.isFormula]
+  return not eq.diff(a, b, ignore_cols=ign)
+
+
+class UndoRedoProfile(HistoryProfile):
+  p_undo = 0.3
+  p_redo_after_undo = 0.7
+  p_restart = 0.05
+  check_undo = True
+  check_redo = False
+
+  def _guard(self, sim, expected, oracle):
+    """Attribution guard (DESIGN 8.2): if the recorded oracle state differs from the current
+    state only in formula cells and the *current* state is from-scratch consistent, the recorded
+    state was stale (a C05 matter), not an undo/redo failure."""
+    if _data_only_equal(sim, expected, sim.sigma):
+      snap, err = sim.from_scratch()
+      if err is None and not eq.diff(sim.sigma, snap):
+        sim.count("probe.guard_stale_oracle_state")
+        return True
+    return False
+
+  def check(self, sim, out, st):
+    k = out.ev["k"]
+    if k == "undo" and out.ok is not None and self.check_undo:
+      e = out.extra["entry"]
+      if not out.ok:
+        raise vio(sim, "undo-raised", "ApplyUndoActions failed: %s" % out.error)
+      d = eq.diff(e.pre, out.post)
+      if d and not self._guard(sim, e.pre, "undo"):
+        raise vio(sim, "undo-state", "; ".join(d[:4]) + "  (A=before bundle, B=after undo)")
+      self.note_undo_probes(sim, e)
+      sim.count("oracle.undo")
+      sim.count("oracle.nontrivial")
+      sim.shapes.add("%s/undo/%s" % (self.shape(sim), ",".join(sorted(set(a[0] for a in e.actions)))))
+    if k == "redo" and out.ok is not None and self.check_redo:
+      e = out.extra["entry"]
+      if not out.ok:
+        raise vio(sim, "redo-raised", "ApplyDocActions failed: %s" % out.error)
+      d = eq.diff(e.post, out.post)
+      if d and not self._guard(sim, e.post, "redo"):
+        raise vio(sim, "redo-state", "; ".join(d[:4]) + "  (A=after bundle, B=after undo+redo)")
+      sim.count("oracle.redo")
+      sim.count("oracle.nontrivial")
+      sim.shapes.add("%s/redo/%s" % (self.shape(sim), ",".join(sorted(set(a[0] for a in e.actions)))))
+
+  def note_undo_probes(self, sim, e):
+    names = [a[0] for a in e.undo]
+    acts = set(a[0] for a in e.actions)
+    if "RenameColumn" in names or "RenameTable" in names:
+      sim.count("probe.undo_with_rename")
+    if "AddTable" in names:
+      sim.count("probe.undo_of_table_removal")
+    if "ModifyColumn" in names:
+      sim.count("probe.undo_with_modify_column")
+    if len(e.actions) > 1:
+      sim.count("probe.undo_multi_action_bundle")
+    if acts & {"CreateViewSection", "UpdateSummaryViewSection", "DetachSummaryViewSection"}:
+      sim.count("probe.undo_summary_change")
+
+
+class C01(UndoRedoProfile):
+  prop = "C01"
+  name = "c01"
+  technique = ("deterministic simulation: seeded histories with undo as a scheduled event "
+               "(also after a sandbox restart), whole-history unwinding at the end")
+
+  def finish(self, sim, st):
+    # Unwind the whole remaining log, bundle by bundle, in reverse order.
+    while sim.ptr > sim.base:
+      self.step(sim, {"k": "undo"}, st)
+    d = eq.diff(sim.sigma0, sim.sigma)
+    if d:
+      raise vio(sim, "unwind-to-start", "; ".join(d[:4]) + "  (A=start, B=after undoing all)")
+    sim.count("probe.full_unwind")
+
+
+class C03(UndoRedoProfile):
+  prop = "C03"
+  name = "c03"
+  technique = ("deterministic simulation: seeded histories with undo then redo "
+               "(ApplyDocActions of the original stored actions), also across a sandbox restart")
+  check_undo = False
+  check_redo = True
+  p_redo_after_undo = 1.0
+
+  def next_event(self, sim, g, cfg, st, i):
+    ev = super(C03, self).next_event(sim, g, cfg, st, i)
+    if ev["k"] == "undo" and g.rng.random() < 0.15:
+      # crash between undo and redo
+      st.setdefault("pending", []).insert(0, {"k": "restart", "mode": "reported"})
+    return ev
+
+
+PROFILES = [C02(), C07(), C05(), C01(), C03()]
